@@ -396,7 +396,26 @@ C11(scn, obs) ==
              (IF obs.cl.extraheads = 0 THEN {} ELSE {"C11.OneHead"})
              \cup (IF obs.cl.problems = <<>> THEN {} ELSE {"C11.Framable"}))
 
+(***************************************************************************)
+(* C08: the outcome does not depend on how the bytes were split.  obs.ref  *)
+(* is the observation of the same scenario with one read and one write.    *)
+(***************************************************************************)
+\* (lengths are not compared: re-encoding a map or re-compressing may legitimately change them between runs)
+FrameCanon(f) == <<f.flags, f.decl = f.actual, f.declz, f.form, f.id>>
+DispCanon(d) == <<d.kind, d.http, d.major, d.path, d.form, d.codec, d.enc, d.bad, d.clen >= 0,
+                  SeqOf(d.frames, FrameCanon), d.rest, d.readerr, d.lost, d.herr>>
+ClientCanon(c) == <<c.status, c.ct, c.enc, c.clen >= 0, c.bodylen = 0, c.extraheads, c.problems, SeqOf(c.frames, FrameCanon),
+                    c.rest, c.end, c.ends, c.after, c.lost>>
+
+C08(scn, obs) ==
+    IF ~obs.ref.has THEN {} ELSE
+      (IF obs.ret.n = obs.ref.ret.n THEN {} ELSE {"C08.SameDispatches"})
+      \cup (IF obs.ret.n = obs.ref.ret.n /\ SeqOf(obs.disp, DispCanon) # SeqOf(obs.ref.disp, DispCanon)
+            THEN {"C08.BackendSeesSameRequest"} ELSE {})
+      \cup (IF ClientCanon(obs.cl) = ClientCanon(obs.ref.cl) THEN {} ELSE {"C08.ClientSeesSameResponse"})
+      \cup (IF obs.ret.panic = obs.ref.ret.panic THEN {} ELSE {"C08.SamePanic"})
+
 Judge(scn, obs) ==
     C01(scn, obs) \cup C02(scn, obs) \cup C03(scn, obs) \cup C04(scn, obs) \cup C05(scn, obs)
-    \cup C09(scn, obs) \cup C11(scn, obs) \cup C13(scn, obs) \cup C18(scn, obs)
+    \cup C08(scn, obs) \cup C09(scn, obs) \cup C11(scn, obs) \cup C13(scn, obs) \cup C18(scn, obs)
 =============================================================================
